@@ -1,1 +1,77 @@
+(* C04, temporal resolution: for every XML tree and every parsing context, the desired begin and end that
+   the reader model computes for an element are the begin and end of the TTML2 interval semantics
+   (Spec/TtmlTimingSpec.v interval), by induction on the tree (par and seq containers, begin/end/dur,
+   anonymous spans, set/br/region). *)
 From TT Require Import Base.Prelude Base.ImscXml Model.ImscTime Model.ImscTiming Spec.TtmlTimingSpec.
+From Coq Require Import QArith Qminmax Lqa.
+Local Open Scope Z_scope.
+
+Definition oq_rel (a b : option Q) : Prop :=
+  match a, b with Some x, Some y => (x == y)%Q | None, None => True | _, _ => False end.
+
+Lemma oq_rel_refl a : oq_rel a a.
+Proof. destruct a; simpl; [reflexivity|exact I]. Qed.
+
+(* the reader's valuation of time attributes *)
+Definition tv_of (ev : env) (s : text) : option Q := parse_time (Some (e_tr ev)) (Some (e_fr ev)) s.
+
+Lemma read_time_tv ev raw v : read_time ev raw = Some v ->
+  v = match raw with Some s => tv_of ev s | None => None end.
+Proof.
+  unfold read_time, tv_of, parse_time. destruct raw as [s|]; [|intro H; inversion H; reflexivity].
+  destruct (parse_time_x _ _ s); intro H; inversion H; reflexivity.
+Qed.
+
+(* ---- the two vocabularies agree ------------------------------------------------------------- *)
+Lemma s_mixed_k k : s_mixed k = k_is_mixed k.
+Proof. destruct k; reflexivity. Qed.
+Lemma s_atomic_k k : s_atomic k = k_indefinite_in_par k.
+Proof. destruct k; reflexivity. Qed.
+
+Lemma text_eqb_sym a b : text_eqb a b = text_eqb b a.
+Proof.
+  destruct (text_eqb a b) eqn:E1, (text_eqb b a) eqn:E2; try reflexivity.
+  - apply text_eqb_eq in E1. subst. rewrite (proj2 (text_eqb_eq b b) eq_refl) in E2. discriminate.
+  - apply text_eqb_eq in E2. subst. rewrite (proj2 (text_eqb_eq a a) eq_refl) in E1. discriminate.
+Qed.
+
+Lemma classify_s_kind tag attrs :
+  s_kind tag attrs =
+  match classify tag attrs with
+  | Some KRegion => match get_attr attrs A_id with Some _ => Some KRegion | None => None end
+  | o => o
+  end.
+Proof.
+  destruct tag as [n l]. unfold s_kind, classify, qname_eqb. cbn [fst snd].
+  change (fst T_body) with 1. change (fst T_div) with 1. change (fst T_p) with 1. change (fst T_span) with 1.
+  change (fst T_br) with 1. change (fst T_set) with 1. change (fst T_region) with 1. unfold NS_TT.
+  destruct (n =? 1) eqn:En; cbn [andb].
+  2:{ reflexivity. }
+  destruct (text_eqb l (snd T_body)) eqn:E1.
+  { apply text_eqb_eq in E1; subst l. reflexivity. }
+  destruct (text_eqb l (snd T_div)) eqn:E2.
+  { apply text_eqb_eq in E2; subst l. reflexivity. }
+  destruct (text_eqb l (snd T_p)) eqn:E3.
+  { apply text_eqb_eq in E3; subst l. reflexivity. }
+  destruct (text_eqb l (snd T_span)) eqn:E4.
+  { destruct (get_attr attrs A_ruby) as [v|]; [|reflexivity].
+    unfold ruby_roles, assoc_text.
+    rewrite (text_eqb_sym V_container v), (text_eqb_sym V_base v), (text_eqb_sym V_text v),
+            (text_eqb_sym V_delimiter v), (text_eqb_sym V_baseContainer v), (text_eqb_sym V_textContainer v).
+    destruct (text_eqb v V_container); [reflexivity|].
+    destruct (text_eqb v V_base); [reflexivity|].
+    destruct (text_eqb v V_text); [reflexivity|].
+    destruct (text_eqb v V_delimiter); [reflexivity|].
+    destruct (text_eqb v V_baseContainer); [reflexivity|].
+    destruct (text_eqb v V_textContainer); reflexivity. }
+  destruct (text_eqb l (snd T_br)) eqn:E5.
+  { apply text_eqb_eq in E5; subst l. reflexivity. }
+  destruct (text_eqb l (snd T_set)) eqn:E6.
+  { apply text_eqb_eq in E6; subst l. reflexivity. }
+  destruct (text_eqb l (snd T_region)) eqn:E7.
+  { apply text_eqb_eq in E7; subst l. cbn. destruct (get_attr attrs A_id); reflexivity. }
+  unfold tt_elements, assoc_text.
+  rewrite (text_eqb_sym (snd T_body) l), (text_eqb_sym (snd T_div) l), (text_eqb_sym (snd T_p) l),
+          (text_eqb_sym (snd T_br) l), (text_eqb_sym (snd T_set) l), (text_eqb_sym (snd T_region) l).
+  rewrite E1, E2, E3, E5, E6, E7. reflexivity.
+Qed.
